@@ -80,14 +80,20 @@ add("C18",
 
 add("C10",
     "Coq theorems over the JSON string codec model: serde_json's escaping followed by a conforming RFC 8259 decoder is the identity on all byte "
-    "strings / all valid UTF-8 (no bound on length), the escaped token is a valid JSON string without raw control bytes and is injective; a "
-    "borrowed-&str reader succeeds iff the token has no escape; rocfl's reader and the validator's reader, position by position (id, paths, "
-    "content directory, user, address, message, version keys), read back exactly what was written outside the recorded known classes, and inside "
-    "them fail (witness lemmas). Correspondence: generated hostile strings placed in every string position through the real create_object / copy / "
-    "commit, inventories re-read with an independent JSON parser, tokens compared in Coq with the model. Search: accepted operation followed by a "
-    "failing open/list/commit/reset, or a string read back that differs.",
-    "Trusted: Coq kernel, Model/Json.v, harness, Python json. clap's argument decoding is outside. The borrowed-string readers (bb69bb9, "
-    "2f36fc5), blank / inventory-named content directories (d88c1da) and trimmed ids (031a721) were repaired: those inputs are must-pass.",
+    "strings / all valid UTF-8 (no bound on length), the escaped token is a valid JSON string without raw control bytes and is injective; "
+    "rocfl's reader and the validator's reader, position by position (id, paths, digests, content directory, user, address, message, version "
+    "keys), read back exactly what was written - unconditionally; the readers before the fixes are kept as `_before_fix` definitions with "
+    "historical witness lemmas; create_object accepts exactly the content directories that are usable file names and stores ids verbatim. "
+    "Correspondence: generated hostile strings placed in every string position through the real create_object / copy / commit, inventories "
+    "re-read with an independent JSON parser, tokens compared in Coq with the model; foreign spellings (one token of a committed inventory "
+    "respelled, all 14 positions) compared with the model of both readers. Search: accepted operation followed by a failing "
+    "open/list/cat/reset/commit, or a string read back that differs, or rocfl validate rejecting what rocfl wrote.",
+    "Trusted: Coq kernel, Model/Json.v, harness, Python json. clap's argument decoding and chrono's timestamp grammar are outside. No known "
+    "finding is left: json-escape-borrowed (bb69bb9), validator-json-escape (2f36fc5), id-trimmed (031a721), cdir-empty and "
+    "cdir-collides-with-inventory (d88c1da) and a content directory that cannot be a file name (29bc659) were repaired and are must-pass "
+    "regression inputs. Stated as a hypothesis, not a finding: the main reader refuses an escaped JSON spelling of `head` or of a key of "
+    "`versions` (VersionNum is deserialized through try_from = \"&str\"); rocfl never writes such a token (theorem "
+    "C10_rocfl_never_writes_escaped_version_name), only inventories written by other software can contain one.",
     "machine-checked proof in Coq (round-trip laws by induction on byte strings) + correspondence on generated strings")
 
 add("C11",
